@@ -5,4 +5,5 @@ CONSTANTS
   MinLen = 0
   Prods = {"name", "num", "str", "re", "grp", "field", "idx", "call", "u-", "u+", "u!", "in", "pget", "pgetv", "fget", "fgetv", "post++", "post--", "pre++", "pre--", "get", "getv", "||", "&&", "~", "!~", "<", "<=", "!=", "==", ">", ">=", "cat", "+", "-", "*", "/", "%", "^", "=", "+=", "?:", "lfield", "lidx"}
   Ctxs = {"stmt", "print", "printgt", "printpipe", "pat", "cond"}
+  OddCtxs = {"stmt", "print", "printgt", "printpipe", "pat", "cond"}
 CHECK_DEADLOCK FALSE
